@@ -112,6 +112,7 @@ pub fn prevote_scenario(sim: &mut Sim, steps: usize) {
                     sim.nodes[i].to_apply.clear();
                     let id = sim.nodes[i].id;
                     sim.note(|| format!("{} crash", id));
+                    sim.pt.crash(id);
                     sim.with_mon(|m, s| m.on_crash(s, i));
                 }
             } else if sim.rng.chance(1, 3) {
@@ -336,17 +337,20 @@ pub fn fair_suffix(sim: &mut Sim) {
                 }
             }
         }
+        // a node that is not a voter of its own configuration but sits at a higher term than the
+        // leader (it was told to campaign()) never campaigns again and, without check_quorum or
+        // pre_vote, silently ignores the leader's lower-term traffic
+        let lead_term = sim.nodes.iter().filter_map(|n| n.driver.as_ref()).filter(|d| d.node.raft.state == StateRole::Leader).map(|d| d.node.raft.term).max().unwrap_or(0);
         let mut wedged = false;
         for n in &sim.nodes {
             if let Some(d) = n.driver.as_ref() {
                 let r = &d.node.raft;
-                let camp = r.state == StateRole::Candidate || r.state == StateRole::PreCandidate;
-                if camp && !r.promotable() {
+                if !r.promotable() && r.term > lead_term && lead_term > 0 {
                     wedged = true;
                 }
             }
         }
-        let kind = if wedged { "stuck-nonvoter-candidate" } else if req_dead { "stuck-request-snapshot" } else if v.leaders.is_empty() { "stuck-no-leader" } else { "stuck" };
+        let kind = if wedged { "stuck-nonvoter-higher-term" } else if req_dead { "stuck-request-snapshot" } else if v.leaders.is_empty() { "stuck-no-leader" } else { "stuck" };
         sim.with_mon(|m, _| m.fail(kind, format!("after {} fair rounds (all nodes running, every message delivered, regular ticks): {}", r, if why.is_empty() { "injected".to_string() } else { why })));
         return;
     }
